@@ -162,10 +162,11 @@ def run(ctx, R, tier):
             "the index page lists objects without applying pyro_app.ns_regex")
 
     from ..report import Rules
+    from ..report import run_shared as _run_shared
     from . import c14
     R14 = Rules("C14")
     try:
-        c14.run(ctx, R14, tier)
+        _run_shared(ctx, c14, R14, tier)
     except AnalysisError as _shared_x:
         # the other property's own anchors are gone on this tree: its check reports that; what it produced before is still shared
         R.note("obligations shared from C14 are incomplete on this tree: %s" % _shared_x)
@@ -177,6 +178,18 @@ def run(ctx, R, tier):
             # the sqlite back-end may answer the regex listing itself: whatever SQL it uses must not be a pattern operator with its own (unanchored / wildcard) semantics
             R.add("C20-R1", "index-page|storage-regex-listing|" + o.key.split("|", 1)[1], "the sqlite storage's own regex listing (used for the index page when the name server runs on sqlite) "
                   "matches no more than the anchored pattern the gateway checks", o.ok, o.loc, o.detail or "")
+
+    # the gateway forces the json serializer and relays the reply bytes: "that call's JSON result (200) or its error (500)" rests on the encoder refusing what json cannot
+    # express (an error reply -> 500) instead of leaving it out (200 with part of the result)
+    from . import c01
+    R01 = Rules("C01")
+    try:
+        _run_shared(ctx, c01, R01, tier)
+    except AnalysisError as _shared_x:
+        R.note("obligations shared from C01 are incomplete on this tree: %s" % _shared_x)
+    for o in R01.obs:
+        if o.rule == "C01-R2" and o.key.startswith("C01-R2|JsonSerializer") and "encoder-keeps-everything-or-raises" in o.key:
+            R.add("C20-R3", "json-reply|" + o.key.split("|", 1)[1], "the json encoder behind the gateway encodes the whole result or raises", o.ok, o.loc, o.detail or "")
 
     # ---------------------------------------------------------------- R2
     def reaches_sink(fn, seen=None):
